@@ -67,27 +67,27 @@ CHECKS["C11"] = _c(
 
 CHECKS["C08"] = _c(
     "fault_enumeration",
-    "runtime monitoring with fault injection: every single fault of a reference-encoded chunk-signed upload is injected, the recording backend shows delivered bytes and terminal state, a reference decoder applied to the faulty bytes gives the expected outcome",
+    "runtime monitoring with fault injection: every single fault of a reference-encoded chunk-signed upload is injected, the recording backend shows delivered bytes and terminal state, a reference decoder applied to the faulty bytes gives the expected outcome; transport-fault injection on request bodies",
     "harness (raw request driver, framed bodies)",
-    "For generated uploads (0..40 chunks, 1 B..64 KiB, PutObject and UploadPart) the check enumerates bit flips in data / size field / signature of every chunk, hex-case flip of a signature letter, resized, deleted, duplicated, swapped and spliced chunks, truncation at every byte offset (uploads <= 2 KiB) or every token boundary +-1, bytes after the final chunk, wrong or tampered decoded length, each under one of six transport framings incl. token-splitting frames and Pending schedules; delivered bytes must be a prefix of the verified chunks, the body may end cleanly only for a complete upload of the declared length, and the backend must see the decoded length as content length. Held on the fault runs observed.",
+    "For generated uploads (0..40 chunks, 1 B..64 KiB, PutObject and UploadPart) the check enumerates bit flips in data / size field / signature of every chunk, hex-case flip of a signature letter, resized, deleted, duplicated, swapped and spliced chunks, truncation at every byte offset (uploads <= 2 KiB) or every token boundary +-1, bytes after the final chunk, wrong or tampered decoded length, each under one of six transport framings incl. token-splitting frames and Pending schedules; delivered bytes must be a prefix of the verified chunks, the body may end cleanly only for a complete upload of the declared length, and the backend must see the decoded length as content length. Held on the fault runs observed. Transport-fault leg: the body of every valid instance also fails in transit instead of yielding frame k (std::io::Error of six kinds, an error wrapping one, the harness's own type): the backend must not run, or must be handed a stream that ends with an error after a prefix of the payload.",
     "Trusted: reference chunk encoder/decoder (AWS 65 KiB + 1 KiB example at start-up). One fault per run; the recording backend drains the body to its first error.",
     "DESIGN.md 3/C08",
 )
 
 CHECKS["C10"] = _c(
     "exploration",
-    "runtime monitoring: recording backend behind S3Service::call for reference-encoded POST forms; reference policy signer (AWS example vector) and policy evaluator applied to what the backend received",
+    "runtime monitoring: recording backend behind S3Service::call for reference-encoded POST forms; reference policy signer (AWS example vector) and policy evaluator applied to what the backend received; transport-fault injection on request bodies",
     "harness (raw request driver)",
-    "Valid forms over hostile field sets, boundaries and file contents, and ~35 variants each (expired or violated-but-correctly-signed policies, form changed after signing, mutations of policy / signature / credential / date / algorithm, removed fields, changed provider secret) are sent through the real service; an upload that reaches the backend must have a valid policy signature, an unexpired policy whose every condition holds for the bucket, key, fields and length received, and must arrive as one PutObject with the form's bucket, key, metadata, header-equivalent fields, identity and exactly the file bytes; a valid compliant form must not be refused. Held on the executions observed; the unenforced policy is recorded as known findings by condition kind.",
+    "Valid forms over hostile field sets, boundaries and file contents, and ~35 variants each (expired or violated-but-correctly-signed policies, form changed after signing, mutations of policy / signature / credential / date / algorithm, removed fields, changed provider secret) are sent through the real service; an upload that reaches the backend must have a valid policy signature, an unexpired policy whose every condition holds for the bucket, key, fields and length received, and must arrive as one PutObject with the form's bucket, key, metadata, header-equivalent fields, identity and exactly the file bytes; a valid compliant form must not be refused. Transport-fault leg: the body of every valid instance also fails in transit instead of yielding frame k (std::io::Error of six kinds, an error wrapping one, the harness's own type): the backend must not run, or must be handed a stream that ends with an error after a prefix of the payload. Held on the executions observed; the unenforced policy is recorded as known findings by condition kind.",
     "Trusted: reference form encoder, policy signer (documentation vector) and evaluator. Duplicated field names and ${filename} not generated; 'every field must be covered by a condition' not judged.",
     "DESIGN.md 3/C10",
 )
 
 CHECKS["C09"] = _c(
     "exploration",
-    "runtime monitoring, metamorphic oracle: the same logical request is executed under many frame partitions and Pending schedules of its body (custom http_body with controlled poll results, paused tokio clock) and every outcome is compared with the single-frame never-pending execution",
+    "runtime monitoring, metamorphic oracle: the same logical request is executed under many frame partitions and Pending schedules of its body (custom http_body with controlled poll results, paused tokio clock) and every outcome is compared with the single-frame never-pending execution; overlap oracle (in flight with other requests = alone)",
     "harness (raw request driver, framed bodies)",
-    "For the four body kinds of the statement (plus digest-signed bodies), valid and invalid instances, the check runs every 2-frame split of small bodies, token-adjacent and sampled splits of large ones, 3-frame splits around structural tokens, 1-byte frames, random k-partitions and inserted empty frames, crossed with five Pending schedules (incl. deferred wake-ups through the timer), and requires status, error code, success body, backend method, decoded input, delivered bytes, terminal body state, credentials and hook events to equal those of the reference framing. Held on the executions observed.",
+    "For the four body kinds of the statement (plus digest-signed bodies), valid and invalid instances, the check runs every 2-frame split of small bodies, token-adjacent and sampled splits of large ones, 3-frame splits around structural tokens, 1-byte frames, random k-partitions and inserted empty frames, crossed with five Pending schedules (incl. deferred wake-ups through the timer), and requires status, error code, success body, backend method, decoded input, delivered bytes, terminal body state, credentials and hook events to equal those of the reference framing. Overlap leg: groups of 2-8 such requests are also served in flight together on one service instance (interleaved on a single-threaded runtime with seeded yields at every hook and body frame, and in parallel on a 4-thread runtime), every event attributed to its request by a task-local tag; each request must be given exactly what it is given alone. Forms whose field section is 70 KiB to over 2 MiB are cut at and next to every power of two. Held on the executions observed.",
     "Trusted: nothing beyond the harness's FramedBody (it yields exactly the bytes it was given - checked by the reference run being reproducible). The reference framing is one frame through the same boxed-body path.",
     "DESIGN.md 3/C09",
 )
@@ -103,9 +103,9 @@ CHECKS["C01"] = _c(
 
 CHECKS["C02"] = _c(
     "exploration",
-    "runtime monitoring: generated typed inputs are encoded by aws-sdk-s3 (via s3s_aws::Proxy), decoded by the service under test and recorded by a backend generated from the current S3 trait; member-wise DTO comparison with wire-aware excuses; plus raw single-mutation reject cases",
+    "runtime monitoring: generated typed inputs are encoded by aws-sdk-s3 (via s3s_aws::Proxy), decoded by the service under test and recorded by a backend generated from the current S3 trait; member-wise DTO comparison with wire-aware excuses; plus raw single-mutation reject cases; transport-fault injection on request bodies",
     "harness (looped client/adapter/backend engine + raw request driver)",
-    "For every operation and every member of its input structure (systematic: each optional member alone; random: absent / all / subsets) values drawn from the alphabet of the member's wire binding (taken from the smithy model) are sent by the official SDK and must arrive at the backend equal, member by member, including metadata maps, nested XML payloads and streamed bodies, in path-style, virtual-hosted, authenticated and two-adapters-in-a-row configurations; every single-valued header / query / metadata member duplicated, every numeric / boolean / timestamp member ill-typed, a required payload emptied and a mis-declared Content-Length must yield a 4xx S3 error and no backend call. Held on the executions observed.",
+    "For every operation and every member of its input structure (systematic: each optional member alone; random: absent / all / subsets) values drawn from the alphabet of the member's wire binding (taken from the smithy model) are sent by the official SDK and must arrive at the backend equal, member by member, including metadata maps, nested XML payloads and streamed bodies, in path-style, virtual-hosted, authenticated and two-adapters-in-a-row configurations; every single-valued header / query / metadata member duplicated, every numeric / boolean / timestamp member ill-typed, a required payload emptied and a mis-declared Content-Length must yield a 4xx S3 error and no backend call. Transport-fault leg: the body of every valid instance also fails in transit instead of yielding frame k (std::io::Error of six kinds, an error wrapping one, the harness's own type): the backend must not run, or must be handed a stream that ends with an error after a prefix of the payload. Held on the executions observed.",
     "Trusted: aws-sdk-s3's encoder; DTO PartialEq; the harness's reading of the model bindings (used for alphabets and for excusing members the SDK adds itself, only when the tapped request carries them). Members the SDK computes or rewrites are not generated.",
     "DESIGN.md 3/C02",
 )
@@ -114,7 +114,7 @@ CHECKS["C03"] = _c(
     "exploration",
     "runtime monitoring: scripted recording backend returns generated typed outputs (plus status override / extra headers); aws-sdk-s3 decodes the real response; member-wise DTO comparison and raw status/header checks on the tapped response; keep-alive completion observed frame by frame under a paused (virtual) tokio clock with an independent XML reader",
     "harness (looped engine + raw request driver with virtual time)",
-    "For every operation and every member of its output structure (systematic per member, random subsets, response-side alphabets) the value returned by the backend must be the value the official SDK decodes, the raw status must be the model's success code (206 for ranged GetObject) or the backend's override, and every extra header (incl. repeated names) must be on the wire. For CompleteMultipartUpload the backend completes after d virtual ms for every d around the first three 100 ms ticks and random d up to 1 s, with an output or a late error, drained eagerly and lazily: the body must be declaration? whitespace* document, XML members equal, header-bound members present in the declared HTTP trailers, a late error rendered as an S3 error document. Held on the executions observed.",
+    "For every operation and every member of its output structure (systematic per member, random subsets, response-side alphabets) the value returned by the backend must be the value the official SDK decodes, the raw status must be the model's success code (206 for ranged GetObject) or the backend's override, and every extra header (incl. repeated names) must be on the wire. For CompleteMultipartUpload the backend completes after d virtual ms for every d around the first three 100 ms ticks and random d up to 1 s, with an output or a late error, drained eagerly and lazily: the body must be declaration? whitespace* document, XML members equal, header-bound members present in the declared HTTP trailers, a late error rendered as an S3 error document. The keep-alive leg also uses cooperative backends that yield to the scheduler before, during or after their work. Held on the executions observed.",
     "Trusted: aws-sdk-s3's decoder, the reference XML reader, tokio's paused clock. Empty string vs absent on the response side and PutBucketPolicy's 204 (model says 200, S3 answers 204) get no verdict; response metadata is judged in one-hop configurations only.",
     "DESIGN.md 3/C03",
 )
@@ -130,9 +130,9 @@ CHECKS["C15"] = _c(
 
 CHECKS["C07"] = _c(
     "exploration",
-    "runtime monitoring: online check of a trace specification over the event log of recording S3Auth / S3Route / S3Access (generic + typed hooks generated from the current trait) / S3 implementations, over the complete configuration product",
+    "runtime monitoring: online check of a trace specification over the event log of recording S3Auth / S3Route / S3Access (generic + typed hooks generated from the current trait) / S3 implementations, over the complete configuration product; overlap oracle (in flight with other requests = alone)",
     "harness (raw request driver; corpus captured from aws-sdk-s3)",
-    "One SDK-encoded request per operation is re-issued in 13 request classes (anonymous; valid V4 header / presigned, V2 header / presigned; each with a broken signature; unknown key; duplicated and malformed Authorization) plus valid and invalid POST forms, under every combination of access hook {none, allow, deny, deny-by-operation, deny-in-typed-hook}, custom route {none, matching, non-matching}, host parser {none, single} and provider {configured, absent}; the event log must satisfy: lookup < route match < check < typed hook < backend, every event shows exactly the verified signer (or no credentials), nothing follows a denial, the denial's code and status are the response's, the backend runs iff approved, the route handler runs iff the identity was verified and its check passed, and without a provider every signature-presenting request is refused with no event. The stated product is enumerated completely in both tiers.",
+    "One SDK-encoded request per operation is re-issued in 13 request classes (anonymous; valid V4 header / presigned, V2 header / presigned; each with a broken signature; unknown key; duplicated and malformed Authorization) plus valid and invalid POST forms, under every combination of access hook {none, allow, deny, deny-by-operation, deny-in-typed-hook}, custom route {none, matching, non-matching}, host parser {none, single} and provider {configured, absent}; the event log must satisfy: lookup < route match < check < typed hook < backend, every event shows exactly the verified signer (or no credentials), nothing follows a denial, the denial's code and status are the response's, the backend runs iff approved, the route handler runs iff the identity was verified and its check passed, and without a provider every signature-presenting request is refused with no event. The stated product is enumerated completely in both tiers. Overlap leg: groups of 2-8 such requests are also served in flight together on one service instance (interleaved on a single-threaded runtime with seeded yields at every hook and body frame, and in parallel on a 4-thread runtime), every event attributed to its request by a task-local tag; each request must be given exactly what it is given alone.",
     "Trusted: the recording trait implementations (they only append to a mutex-protected log) and the reference signers validated by C05/C06/C10/C11. Duplicated Authorization is specified only as 'never authenticated'.",
     "DESIGN.md 3/C07",
 )
@@ -166,18 +166,18 @@ CHECKS["C17"] = _c(
 
 CHECKS["C18"] = _c(
     "exploration",
-    "runtime monitoring against an executable reference model: generated operation histories are executed step by step through aws-sdk-s3 against s3s-fs (behind S3Service::call, two identities) and against a small in-memory object store; the clauses the statement names are compared after every step",
+    "runtime monitoring against an executable reference model: generated operation histories are executed step by step through aws-sdk-s3 against s3s-fs (behind S3Service::call, two identities) and against a small in-memory object store; the clauses the statement names are compared after every step; uploads held open across other writes (gated request bodies)",
     "harness (store driver with aws-sdk-s3 as client)",
-    "Hundreds (quick) to thousands (thorough) of histories of 20-60 steps over 1-3 buckets and six keys chosen so that overwrites, deletes, copies (incl. self-copies) and multipart completions collide: put with / without metadata, get, head, ranged get in every RFC 9110 form, delete, copy, listings with prefixes, bucket deletion and re-creation, multipart uploads with parts in any order, parts and completion by a second identity, one 5 MiB part. After each step: content, user metadata, MD5 ETag (put / copied objects), slice + Content-Range + Content-Length + 206 / 416, listing order and membership, multipart concatenation and metadata, refusal of the foreign identity, absence of deleted things. Held on the histories observed; the evidence counts steps and the (operation, prior state, range class) cells reached.",
+    "Hundreds (quick) to thousands (thorough) of histories of 20-60 steps over 1-3 buckets and six keys chosen so that overwrites, deletes, copies (incl. self-copies) and multipart completions collide: put with / without metadata, get, head, ranged get in every RFC 9110 form, delete, copy, listings with prefixes, bucket deletion and re-creation, multipart uploads with parts in any order, parts and completion by a second identity, one 5 MiB part. After each step: content, user metadata, MD5 ETag (put / copied objects), slice + Content-Range + Content-Length + 206 / 416, listing order and membership, multipart concatenation and metadata, refusal of the foreign identity, absence of deleted things. Held on the histories observed; the evidence counts steps and the (operation, prior state, range class) cells reached. In-flight leg: 1-3 uploads are held open (frames released by the driver) while 0-8, or a round number (100/256/1000/1024 plus an eighth) of, other writes - good, failing in transit, wrong checksum, deletes, copies - run to completion on the same FileSystem, the slow ones completing / failing / being dropped at random points; before every overwrite and at the end every key must hold exactly what its last acknowledged write stored, and no temporary file may remain. Here an upload that arrived intact must also be acknowledged.",
     "Trusted: the in-memory model (60 lines), aws-sdk-s3 as client. CopyObject = S3's default COPY metadata directive. States the statement does not pin (an upload that is not completable but was accepted; suffix range on an empty object) are marked unknown and not judged until rewritten.",
     "DESIGN.md 3/C18",
 )
 
 CHECKS["C19"] = _c(
     "fault_enumeration",
-    "runtime monitoring with fault injection at the request boundary: s3s-fs behind S3Service::call in a scratch root; the request future is polled by hand so that it can be dropped after any poll; body faults are injected by the framed request body (error / stall at frame k); a GET of the key and a listing of the root after every fault; concurrent writers and readers on an 8-thread runtime; crash points and system-call faults: the write runs in a child process under strace, which is killed on entering the k-th system call on the files of the write or has that call fail with ENOSPC / EIO / EACCES, then the store is opened again",
+    "runtime monitoring with fault injection at the request boundary: s3s-fs behind S3Service::call in a scratch root; the request future is polled by hand so that it can be dropped after any poll; body faults are injected by the framed request body (error / stall at frame k); a GET of the key and a listing of the root after every fault; concurrent writers and readers on an 8-thread runtime; crash points and system-call faults: the write runs in a child process under strace, which is killed on entering the k-th system call on the files of the write or has that call fail with ENOSPC / EIO / EACCES, then the store is opened again; uploads held open across other writes (gated request bodies)",
     "harness (store driver; framed body with error / stall injection; hand-polled request future)",
-    "Previous state absent / present x one fault per run: transport error instead of frame k of an n-frame upload (every k thorough; first / middle / last in most quick groups), client stall before frame k then drop of the request, request dropped after p polls (p = 1..48), wrong checksum of each algorithm the backend verifies (right ones as controls), chunk-signed upload with a corrupted signature in chunk k or cut short after chunk k, CopyObject with a missing source or dropped after p polls, CompleteMultipartUpload naming a missing part / parts out of order / dropped after p polls. Afterwards: refused => the previous content (or absence); abandoned => the previous or the complete new content; acknowledged => the complete new content; never a .tmp.* file in the root. Concurrency: 2-8 writers (uploads with Pending schedules, CopyObject from distinct sources) with distinct contents of 2 KB-2 MB to one key with 1-3 overlapping readers: the stored content is exactly one acknowledged writer's bytes, every overlapping read that returns content returns the previous content or one writer's complete bytes, no temporary file remains. Held on the executions observed; the evidence lists (fault, previous state, position, outcome, state after) cells, distinct completion orders and the winner's completion rank.",
+    "Previous state absent / present x one fault per run: transport error instead of frame k of an n-frame upload (every k thorough; first / middle / last in most quick groups), client stall before frame k then drop of the request, request dropped after p polls (p = 1..48), wrong checksum of each algorithm the backend verifies (right ones as controls), chunk-signed upload with a corrupted signature in chunk k or cut short after chunk k, CopyObject with a missing source or dropped after p polls, CompleteMultipartUpload naming a missing part / parts out of order / dropped after p polls. Afterwards: refused => the previous content (or absence); abandoned => the previous or the complete new content; acknowledged => the complete new content; never a .tmp.* file in the root. Concurrency: 2-8 writers (uploads with Pending schedules, CopyObject from distinct sources) with distinct contents of 2 KB-2 MB to one key with 1-3 overlapping readers: the stored content is exactly one acknowledged writer's bytes, every overlapping read that returns content returns the previous content or one writer's complete bytes, no temporary file remains. In-flight leg: 1-3 uploads are held open (frames released by the driver) while 0-8, or a round number (100/256/1000/1024 plus an eighth) of, other writes - good, failing in transit, wrong checksum, deletes, copies - run to completion on the same FileSystem, the slow ones completing / failing / being dropped at random points; before every overwrite and at the end every key must hold exactly what its last acknowledged write stored, and no temporary file may remain. Held on the executions observed; the evidence lists (fault, previous state, position, outcome, state after) cells, distinct completion orders and the winner's completion rank.",
     "Trusted: std::fs directory listing; the hand-polling driver (300 us between polls so that tokio's blocking pool makes progress; 12 ms settle time after a drop). Not covered: process crash / power loss between write and rename and syscall-level faults (ENOSPC, EIO) - the quantifier's crash points are covered only as 'request dropped at poll p'. Reads that are answered with an error while the object is being replaced return no content and are counted, not judged.",
     "DESIGN.md 3/C19",
 )
